@@ -110,10 +110,21 @@ def run(repo: Repo, L: Ledger, tier: str):
     # ---- R5
     unpack = [n for n in walk_shallow(ld_i.node) if isinstance(n, ast.Assign) and isinstance(n.targets[0], ast.Tuple) and isinstance(n.value, ast.Call) and isinstance(n.value.func, ast.Attribute) and n.value.func.attr == "split"]
     ok5 = len(unpack) == 1 and len(unpack[0].targets[0].elts) == 5 and not any(isinstance(e, ast.Starred) for e in unpack[0].targets[0].elts)
+    if not unpack and any(isinstance(c, ast.Call) and isinstance(c.func, ast.Attribute) and c.func.attr == "split" for c in walk_shallow(ld_i.node)) is False:
+        # the line is split in a helper the loader calls
+        raise AnalysisError(f"{ld_i.short}: the index lines are not split in the loader itself (a helper does it): form not understood")
     L.check(ok5, "R5", ld_i.short, "5-way unpack of every line (wrong field counts raise)", "the .fai loader does not unpack exactly five fields per line: a truncated or corrupt line is accepted", ld_i.loc())
     # loader reads every line of the file
     loops = [n for n in walk_shallow(ld_i.node) if isinstance(n, ast.For)]
-    L.check(len(loops) == 1 and not any(isinstance(x, ast.Break | ast.Continue) for x in walk_shallow(loops[0])), "R5", ld_i.short + ":all-lines", "every line loaded", "loader skips lines", ld_i.loc())
+    if not loops:
+        comps = [n for n in walk_shallow(ld_i.node) if isinstance(n, ast.GeneratorExp | ast.ListComp | ast.DictComp)]
+        if comps:
+            skipping = [norm(c_)[:50] for n in comps for g in n.generators for c_ in g.ifs]
+            L.check(not skipping, "R5", ld_i.short + ":all-lines", "every line loaded (comprehension without filter)", f"loader skips lines under {skipping}", ld_i.loc())
+        else:
+            raise AnalysisError(f"{ld_i.short}: how the lines of the index file are iterated is not understood")
+    else:
+        L.check(len(loops) == 1 and not any(isinstance(x, ast.Break | ast.Continue) for x in walk_shallow(loops[0])), "R5", ld_i.short + ":all-lines", "every line loaded", "loader skips lines", ld_i.loc())
 
 
 def _validator(L, valid: Func):
